@@ -53,7 +53,13 @@ func runVBC(cfg *runCfg) error {
 	for i := 0; i < n; i++ {
 		size := 4 + r.Intn(5)
 		ws := make([]uint64, size)
-		switch r.Intn(4) {
+		switch r.Intn(5) {
+		case 4: // a committee without weight (and, sometimes, without members)
+			if r.Intn(2) == 0 {
+				size = 0
+				ws = nil
+			}
+			rep.count("committee:zero-total-weight")
 		case 0:
 			for j := range ws {
 				ws[j] = 1
@@ -66,11 +72,13 @@ func runVBC(cfg *runCfg) error {
 			for j := range ws {
 				ws[j] = 1
 			}
-			ws[r.Intn(size)] = uint64(3 + r.Intn(8))
+			if size > 0 {
+				ws[r.Intn(size)] = uint64(3 + r.Intn(8))
+			}
 		case 3: // totals around 2^53 and 2^63 (the float arithmetic of finding F5 is wrong there)
 			base := []uint64{1 << 53, 1 << 62}[r.Intn(2)]
 			for j := range ws {
-				ws[j] = base/uint64(size) + uint64(r.Intn(3))
+				ws[j] = base/uint64(len(ws)) + uint64(r.Intn(3))
 			}
 		}
 		ids := make([]uint64, size)
@@ -99,6 +107,9 @@ func runVBC(cfg *runCfg) error {
 		// signer set: aim the weight at a threshold
 		target := []uint64{q, q, f + 1, f, q - 1, total}[r.Intn(6)]
 		perm := r.Perm(size)
+		if total == 0 && r.Intn(2) == 0 {
+			perm = nil // no signers at all
+		}
 		var signers []aSig
 		acc := uint64(0)
 		for _, j := range perm {
